@@ -284,3 +284,13 @@ Proof.
   split; [repeat (apply Forall_cons; [vm_compute; intuition (try discriminate; try lia)|]); apply Forall_nil|].
   repeat split; try (vm_compute; reflexivity); cbn [In]; repeat (first [left; reflexivity | right]).
 Qed.
+
+
+(* (12) success means a root: a text without a value (empty, white space only, a lone `]`) is an error, never rc = 0 with a NULL node
+   (the library's repair 3d4d0bc; jbl_from_json and the patch front ends dereference the node) *)
+Theorem C13_from_json_root : forall ora json, from_json ora json <> Ok None.
+Proof. exact from_json_root. Qed.
+Print Assumptions C13_from_json_root.
+
+Example C13_from_json_root_example : forall ora, from_json ora [93] = Err E_JSON /\ from_json ora [32; 10] = Err E_JSON /\ from_json ora [] = Err E_JSON.
+Proof. intro ora. repeat split; vm_compute; reflexivity. Qed.
